@@ -87,7 +87,7 @@ struct Stats {
     known_stw_empty: u64,
 }
 
-const WORKLOADS: [&str; 6] = ["all garbage", "all survive", "half survive", "mixed with weak shells", "all weak", "non-tracing survivors + garbage"];
+const WORKLOADS: [&str; 7] = ["all garbage", "all survive", "half survive", "mixed with weak shells", "all weak", "non-tracing survivors + garbage", "survivors with 4 write barriers on kept objects per allocation"];
 const DRIVERS: [&str; 3] = ["cycle_debt", "collect_debt", "mark_debt + start_sweeping, cycle_debt while Sweeping"];
 
 fn alloc_burst(arena: &mut A, cfg: &Cfg, round: usize) {
@@ -107,6 +107,14 @@ fn alloc_burst(arena: &mut A, cfg: &Cfg, round: usize) {
                     match w {
                         0 => {}
                         1 => root.keep.push(n),
+                        6 => {
+                            root.keep.push(n);
+                            for j in 0..4 {
+                                let k = root.keep[(i * 7 + round * 3 + j) % root.keep.len()];
+                                let old = k.next.get();
+                                gc_arena::barrier::unlock!(Gc::write(mc, k), N, next).set(old);
+                            }
+                        }
                         2 => {
                             if (i + round) % 2 == 0 {
                                 root.keep.push(n)
@@ -355,7 +363,7 @@ pub fn run(thorough: bool, only: Option<&str>) -> GridOut {
         let rounds = if thorough { 400 } else { 120 };
         for f in &pacings {
             for (sf, ms) in sleeps {
-                for w in 0..6u8 {
+                for w in 0..7u8 {
                     for &b in bursts {
                         for d in 0..3u8 {
                             cfgs.push(Cfg { f: *f, sleep_factor: *sf, min_sleep: *ms, workload: w, burst: b, driver: d, rounds });
